@@ -2,9 +2,9 @@ package main
 
 import (
 	"fmt"
-	"math/big"
 	"go/token"
 	"go/types"
+	"math/big"
 	"strings"
 
 	"golang.org/x/tools/go/ssa"
@@ -15,7 +15,7 @@ func (x *Engine) mayPanic(fr *Frame, st *State, cond, origin string) {
 	if cond == "false" {
 		return
 	}
-	if fr.track {
+	if fr.track && (!fr.hooksOnly || strings.HasPrefix(origin, "nilfunc") || strings.HasPrefix(origin, "panic")) {
 		pc := x.name("pc", "Bool", andTerms(st.live, cond))
 		fr.panics = append(fr.panics, exit{cond: pc, st: st.clone(), origin: origin})
 		st.live = x.name("live", "Bool", andTerms(st.live, notTerm(cond)))
